@@ -1,4 +1,4 @@
-import RtenVerif.Lemmas.TensorBounds
+import RtenVerif.Lemmas.TensorBoundsOverlapM
 import RtenVerif.Props.C08
 
 /-!
@@ -236,5 +236,203 @@ theorem c06_T3_fixed_rejects_witnesses :
     M.fromSliceWithStrides [(3, 9223372036854775808), (2, 1)] 2 = .error .tooShort ∧
     M.fromStorageAndLayout [(3, 9223372036854775808), (2, 1)] 2 true = .error .panic := by
   decide
+
+/-! ## T3: the fixed constructors on machine integers -/
+
+/-- **C06.T3a** every accepted tensor has ideal `len` and `min_data_len` `≤ isize::MAX`
+(`< 2^63`), whatever constructor produced it. -/
+theorem c06_T3_accepted_fits {dims : List (Nat × Nat)} {n : Nat} {m : Bool}
+    (acc : Accepted dims n m) : len dims ≤ isizeMax ∧ minDataLen dims ≤ isizeMax := by
+  refine ⟨Nat.le_trans (prod_le_prodNZ _) acc.shape_fits, ?_⟩
+  unfold minDataLen
+  have := acc.offset_fits
+  split <;> omega
+
+/-- **C06.T3b** on every layout that passed the guards, the wrap-around (`UInt64`) evaluation
+of `min_data_len`, `len`, the overlap check, index validation and the offset sum equals the
+ideal evaluation. -/
+theorem c06_T3_machine_eq_ideal (d : List (M.U × M.U)) {n : Nat} {m : Bool}
+    (acc : Accepted (M.toN d) n m) :
+    (M.minDataLen d).toNat = minDataLen (M.toN d) ∧
+    (M.len d).toNat = len (M.toN d) ∧
+    M.mayOverlap d = mayOverlap (M.toN d) ∧
+    ∀ idx : List M.U, (M.offsetOf d idx).map UInt64.toNat = offsetOf (M.toN d) (M.toNs idx) := by
+  have hW := M.isizeMax_lt_W
+  have hfit := c06_T3_accepted_fits acc
+  refine ⟨M.minDataLen_toNat d (by have := acc.offset_fits; omega),
+    M.len_toNat d (by omega), M.mayOverlap_eq d acc.shape_fits acc.offset_fits, ?_⟩
+  intro idx
+  unfold M.offsetOf offsetOf
+  rw [M.validIdx_eq]
+  split
+  · next hv =>
+    simp only [Option.map_some]
+    congr 1
+    rw [M.offset_toNat, Nat.mod_eq_of_lt]
+    have := valid_offset_le ((validIdx_iff _ _).mp hv)
+    have := acc.offset_fits
+    omega
+  · rfl
+
+theorem isNone_of_map {α β : Type} {f : α → β} {a : Option α} {b : Option β}
+    (h : a.map f = b) : a.isNone = b.isNone := by
+  subst h; cases a <;> rfl
+
+/-- **C06.T3c** `from_shape` on machine integers = ideal `from_shape`. -/
+theorem c06_T3_fromShape (s : List M.U) :
+    (M.fromShape s).map M.toN = fromShape (M.toNs s) := by
+  unfold M.fromShape fromShape
+  rw [isNone_of_map (M.checkedShapeLen_eq s)]
+  split
+  · rfl
+  · next h =>
+    rw [checkedShapeLen_eq] at h
+    have hfit : prodNZ (M.toNs s) ≤ isizeMax := by
+      by_cases hp : prodNZ (M.toNs s) ≤ isizeMax
+      · exact hp
+      · simp [hp] at h
+    simp only [Except.map, M.contigDims_toN s hfit]
+
+/-- **C06.T3d** `try_from_data` on machine integers accepts exactly what the ideal model
+accepts, with the same layout. -/
+theorem c06_T3_tryFromData (s : List M.U) (n : M.U) :
+    (M.tryFromData s n).map M.toN = tryFromData (M.toNs s) n.toNat := by
+  unfold M.tryFromData tryFromData
+  rw [isNone_of_map (M.checkedShapeLen_eq s)]
+  split
+  · rfl
+  · next h =>
+    rw [checkedShapeLen_eq] at h
+    have hfit : prodNZ (M.toNs s) ≤ isizeMax := by
+      by_cases hp : prodNZ (M.toNs s) ≤ isizeMax
+      · exact hp
+      · simp [hp] at h
+    have hW := M.isizeMax_lt_W
+    have hmo := maxOffset_contig_lt (M.toNs s)
+    have hm : (M.minDataLen (M.contigDims s)).toNat = minDataLen (contigDims (M.toNs s)) := by
+      rw [M.minDataLen_toNat, M.contigDims_toN s hfit]
+      rw [M.contigDims_toN s hfit]; omega
+    by_cases hne : M.minDataLen (M.contigDims s) = n
+    · have : minDataLen (contigDims (M.toNs s)) = n.toNat := by rw [← hm, hne]
+      simp only [hne, this, ne_eq, not_true_eq_false, if_false, Except.map, M.contigDims_toN s hfit]
+    · have : minDataLen (contigDims (M.toNs s)) ≠ n.toNat := by
+        rw [← hm]; exact fun h' => hne (UInt64.toNat_inj.mp h')
+      simp only [ne_eq, hne, this, not_false_eq_true, if_true, Except.map]
+
+/-- **C06.T3e** `from_data`. -/
+theorem c06_T3_fromData (s : List M.U) (n : M.U) :
+    (M.fromData s n).map M.toN = fromData (M.toNs s) n.toNat := by
+  unfold M.fromData fromData
+  rw [← c06_T3_tryFromData]
+  cases M.tryFromData s n <;> rfl
+
+theorem checkedMinDataLen_fits {d : List (Nat × Nat)} (h : ¬ (checkedMinDataLen d).isNone = true) :
+    prodNZ (shapeOf d) ≤ isizeMax ∧ maxOffset d < isizeMax := by
+  rw [checkedMinDataLen_eq] at h
+  by_cases hp : prodNZ (shapeOf d) ≤ isizeMax ∧ maxOffset d < isizeMax
+  · exact hp
+  · simp [hp] at h
+
+/-- **C06.T3f** `from_shape_and_strides` (both overlap policies). -/
+theorem c06_T3_fromShapeAndStrides (d : List (M.U × M.U)) (disallow : Bool) :
+    (M.fromShapeAndStrides d disallow).map M.toN = fromShapeAndStrides (M.toN d) disallow := by
+  unfold M.fromShapeAndStrides fromShapeAndStrides
+  rw [isNone_of_map (M.checkedMinDataLen_eq d)]
+  split
+  · rfl
+  · next h =>
+    obtain ⟨h1, h2⟩ := checkedMinDataLen_fits h
+    rw [M.mayOverlap_eq d h1 h2]
+    split <;> rfl
+
+theorem minDataLen_gt_eq (d : List (M.U × M.U)) (n : M.U)
+    (h : ¬ (checkedMinDataLen (M.toN d)).isNone = true) :
+    (M.minDataLen d > n) ↔ (minDataLen (M.toN d) > n.toNat) := by
+  obtain ⟨_, h2⟩ := checkedMinDataLen_fits h
+  have hW := M.isizeMax_lt_W
+  show n < M.minDataLen d ↔ _
+  rw [UInt64.lt_iff_toNat_lt, M.minDataLen_toNat d (by omega)]
+
+/-- **C06.T3g** `from_data_with_strides`. -/
+theorem c06_T3_fromDataWithStrides (d : List (M.U × M.U)) (n : M.U) :
+    (M.fromDataWithStrides d n).map M.toN = fromDataWithStrides (M.toN d) n.toNat := by
+  unfold M.fromDataWithStrides fromDataWithStrides
+  rw [← c06_T3_fromShapeAndStrides]
+  cases hc : M.fromShapeAndStrides d true with
+  | error e => rfl
+  | ok l =>
+    have hl : l = d := by
+      unfold M.fromShapeAndStrides at hc
+      split at hc
+      · cases hc
+      · split at hc <;> cases hc; rfl
+    subst hl
+    have hnone : ¬ (checkedMinDataLen (M.toN l)).isNone = true := by
+      unfold M.fromShapeAndStrides at hc
+      rw [isNone_of_map (M.checkedMinDataLen_eq l)] at hc
+      split at hc
+      · cases hc
+      · assumption
+    simp only [Except.map]
+    by_cases hgt : M.minDataLen l > n
+    · have := (minDataLen_gt_eq l n hnone).mp hgt
+      simp only [hgt, this, if_true]
+    · have : ¬ minDataLen (M.toN l) > n.toNat := fun h' => hgt ((minDataLen_gt_eq l n hnone).mpr h')
+      simp only [hgt, this, if_false]
+
+/-- **C06.T3h** `from_slice_with_strides`. -/
+theorem c06_T3_fromSliceWithStrides (d : List (M.U × M.U)) (n : M.U) :
+    (M.fromSliceWithStrides d n).map M.toN = fromSliceWithStrides (M.toN d) n.toNat := by
+  unfold M.fromSliceWithStrides fromSliceWithStrides
+  rw [← c06_T3_fromShapeAndStrides]
+  cases hc : M.fromShapeAndStrides d false with
+  | error e => rfl
+  | ok l =>
+    have hl : l = d := by
+      unfold M.fromShapeAndStrides at hc
+      split at hc
+      · cases hc
+      · split at hc <;> cases hc; rfl
+    subst hl
+    have hnone : ¬ (checkedMinDataLen (M.toN l)).isNone = true := by
+      unfold M.fromShapeAndStrides at hc
+      rw [isNone_of_map (M.checkedMinDataLen_eq l)] at hc
+      split at hc
+      · cases hc
+      · assumption
+    simp only [Except.map]
+    by_cases hgt : M.minDataLen l > n
+    · have := (minDataLen_gt_eq l n hnone).mp hgt
+      simp only [hgt, this, if_true]
+    · have : ¬ minDataLen (M.toN l) > n.toNat := fun h' => hgt ((minDataLen_gt_eq l n hnone).mpr h')
+      simp only [hgt, this, if_false]
+
+/-- **C06.T3i** `from_storage_and_layout`. -/
+theorem c06_T3_fromStorageAndLayout (d : List (M.U × M.U)) (n : M.U) (m : Bool) :
+    (M.fromStorageAndLayout d n m).map M.toN = fromStorageAndLayout (M.toN d) n.toNat m := by
+  unfold M.fromStorageAndLayout fromStorageAndLayout
+  have hc := M.checkedMinDataLen_eq d
+  cases hk : M.checkedMinDataLen d with
+  | none => rw [hk] at hc; rw [← hc]; rfl
+  | some k =>
+    rw [hk] at hc
+    rw [← hc]
+    simp only [Option.map_some]
+    have hnone : ¬ (checkedMinDataLen (M.toN d)).isNone = true := by rw [← hc]; simp
+    obtain ⟨h1, h2⟩ := checkedMinDataLen_fits hnone
+    rw [M.mayOverlap_eq d h1 h2]
+    by_cases hlt : n < k
+    · have : n.toNat < k.toNat := UInt64.lt_iff_toNat_lt.mp hlt
+      simp only [hlt, this, if_true, Except.map]
+    · have : ¬ n.toNat < k.toNat := fun h' => hlt (UInt64.lt_iff_toNat_lt.mpr h')
+      simp only [hlt, this, if_false]
+      split <;> rfl
+
+/-- Non-vacuity of T3: machine constructors accept non-trivial tensors, including one whose
+element count is exactly `isize::MAX` (a broadcast immutable view of one element). -/
+example : M.tryFromData [2, 3] 6 = .ok [(2, 3), (3, 1)] ∧
+    M.fromDataWithStrides [(3, 2), (4, 8)] 29 = .ok [(3, 2), (4, 8)] ∧
+    M.fromSliceWithStrides [(9223372036854775807, 0)] 1 = .ok [(9223372036854775807, 0)] ∧
+    M.fromSliceWithStrides [(9223372036854775808, 0)] 1 = .error .tooShort := by decide
 
 end RtenVerif.TensorBounds
